@@ -22,6 +22,25 @@ from run import gen as G, stage, drive
 from run.reports_c14 import PROBE
 from vlib import trace
 
+# Scenario Outlines without a single example row (a heading-only Examples table; no Examples section at all).  The shared
+# renderer cannot express them: for programs marked prog["zero_row_outlines"] they are appended to the text of the last
+# feature (after every element that has an id, so no line of the program moves).  They have no element id and contribute
+# no scenario and no step to the census.
+ZERO_ROW_OUTLINES = ("\n  Scenario Outline: Z1\n    Given <c1>\n\n    Examples: none yet\n      | c1 |\n"
+                     "\n  Scenario Outline: Z2\n    Given own 1\n")
+_Rendered = drive.Rendered
+
+
+def _rendered(prog, flat):
+    R = _Rendered(prog, flat)
+    if prog.get("zero_row_outlines"):
+        fn, text = R.files[-1]
+        R.files[-1] = (fn, text + ZERO_ROW_OUTLINES)
+    return R
+
+
+drive.Rendered = _rendered      # run_case() runs in forked workers of this process: they render through this wrapper
+
 WORKERS = int(os.environ.get("VERIF_WORKERS") or 16)
 PROCS = int(os.environ.get("VERIF_PROCS") or 14)
 FULL_DETAIL_PER_SIG = 3
@@ -70,7 +89,7 @@ def make_jobs(chk):
         for ci, c in enumerate(cfgs):
             for fi, f in enumerate(faults):
                 jobs.append((tid + 1, ci + 1, fi + 1, p, c, f))
-    want = 900 if chk.quick() else 20000
+    want = 700 if chk.quick() else 20000
     total = len(jobs)
     if len(jobs) > want:
         # thin the plan (seeded); 30 % of the runs without a hook fault so that complete green / red runs stay frequent
@@ -106,6 +125,8 @@ def make_jobs(chk):
             # every other run: all scenarios share one keyword + title (model elements compare equal by keyword and name);
             # the listed scenarios are mapped back by file:line, never by name
             p = dict(p, dupnames=True)
+        if n % 4 == 1:
+            p = dict(p, zero_row_outlines=True)
         if n % 3 == 0:
             p = dict(p, hdronly=True)       # every outline gets one more Examples table without rows
         job = {"key": [tid, ci, fi], "prog": p, "flat": G.flatten(p), "cfg": c, "fault": f,
@@ -182,6 +203,8 @@ def observe_model(case):
     from behave.parser import parse_feature
     from run import reports_c14
     prog, order = case_to_prog(case)
+    if case.get("zero_row_outlines"):
+        prog["zero_row_outlines"] = True
     flat = G.flatten(prog)
     R = drive.Rendered(prog, flat)
     if not _CONFIG:
@@ -289,14 +312,19 @@ def run(chk):
     for name in r.violated:
         chk.violation("C14.design." + name, "design:%s" % name, "TLC: invariant %s violated in Summary_MC (%s)" % (name, cfg))
     cases = sorted((json.loads(t[1]) for t in r.by_tag("CASE")), key=lambda c: json.dumps(c, sort_keys=True))
+    # models with a zero-row outline *element* cannot be rendered by the shared renderer; instead every other rebuilt model
+    # gets the zero-row outlines appended as text
+    cases = [c for c in cases if not any(k == "outline" and not ch for k, ch in zip(c["kind"], c["children"]))]
     chk.extra["design_models_explored"] = r.distinct
-    want = 350 if quick else 4000
+    want = 250 if quick else 4000
     if len(cases) > want:
         cases = [cases[i] for i in sorted(rnd.sample(range(len(cases)), want))]
     rows, meta = [], {}
     rid = 0
     unpinned = 0
-    for c in cases:
+    for k, c in enumerate(cases):
+        if k % 2:
+            c["zero_row_outlines"] = True
         flat, end, rep, pinned = observe_model(c)
         unpinned += 0 if pinned else 1
         rid += 1
@@ -344,6 +372,7 @@ def run(chk):
                 e["kind"] == "scenario" and job["flat"]["elems"][e["parent"] - 1]["kind"] == "outline" and jr["end"]["ran_status"][e["id"] - 1]
                 not in ("", "untested", "skipped") for e in job["flat"]["elems"]))
         classes["runs_where_probe_saw_scenarios"] = classes.get("runs_where_probe_saw_scenarios", 0) + any(jr["end"]["ran_status"])
+        classes["zero_row_outlines"] = classes.get("zero_row_outlines", 0) + bool(job["prog"].get("zero_row_outlines"))
         classes["summary_reporter_alone"] += "extra_args" in job
         classes["same_title_scenarios"] += bool(job["prog"].get("dupnames"))
         classes["kbd_in_hook"] += job["fault_kind"] == "kbd" and any(job["fault"])
@@ -399,7 +428,7 @@ def run(chk):
                 "2 steps (TLC, exhaustive per shape and status domain); binding: a seeded sample of these models rebuilt on real model "
                 "objects + a seeded sample of the run-cluster plan (exhaustive family `scen`, random `tree`/`big`, x configurations x hook "
                 "fault sets) + anchor programs, each observed through the live summary, a fresh SummaryReporter per format and the collector; "
-                "distinct = distinct models / (program, cfg, fault set)") % (6 if quick else 13)
+                "distinct = distinct models / (program, cfg, fault set)") % (6 if quick else 14)
     chk.assumptions = [
         "the final statuses are those of the model objects after the run (read through .status of every element, all_steps of every scenario)",
         "the live summary is judged only when the run came to its end (an escaped exception is C01's business); the fresh SummaryReporter per format and the "
